@@ -18,8 +18,14 @@ def bucket(e, entry):
         where = f.filename.split("/jedi/", 1)[-1] + ":" + f.name
         if "/parso/" in tb[-1].filename and tb[-1] is not f:
             # raised inside the parser library: name its frame too, so that two different parso failures reached
-            # through the same jedi function stay two signatures
-            where += ">parso/" + tb[-1].filename.split("/parso/", 1)[-1] + ":" + tb[-1].name
+            # through the same jedi function stay two signatures ...
+            pw = "parso/" + tb[-1].filename.split("/parso/", 1)[-1] + ":" + tb[-1].name
+            if len(tb) >= 2 and "/parso/" in tb[-2].filename:
+                # ... and when the failure lies two or more frames deep inside parso (not an accessor jedi called on the
+                # wrong node) the parso frame alone is the root cause, whichever jedi function led there
+                where = pw
+            else:
+                where += ">" + pw
     else:
         f = tb[-1] if tb else None
         where = (Path(f.filename).name + ":" + f.name) if f else "?"
